@@ -386,8 +386,9 @@ class Exec(EvalMixin, CallMixin):
         if node.value is None:
             return [(st, "next")]
         v = self.ev(node.value, st, CODE)
-        if k != ANY and v.k != NONE:
+        if k != ANY and (v.k != NONE or k.head == "opt"):
             v = SV(v.t, k, v.h)      # the declared type wins over the (possibly narrower) type of the initialiser
+            # (also for `x: Optional[T] = None`: a later havoc of x must range over Optional[T], not over None alone)
         self.assign(node.target, v, st, node)
         return [(st, "next")]
 
@@ -412,7 +413,7 @@ class Exec(EvalMixin, CallMixin):
                     and "g" not in v.k[1:]:
                 v = SV(v.t, K(*(tuple(v.k) + ("g",))), v.h)
             dk = self.decl_kinds.get(tgt.id)
-            if dk is not None and dk != ANY and v.k != NONE:
+            if dk is not None and dk != ANY and (v.k != NONE or dk.head == "opt"):
                 v = SV(v.t, dk, v.h)
             st.env[tgt.id] = v
             return
@@ -608,6 +609,18 @@ class Exec(EvalMixin, CallMixin):
             env = dict(self.pre_env)
             env.update(s.env)
             return env
+        pre_names = self.assigned_names(node.body)
+        if isinstance(node, ast.For):
+            pre_names |= {n.id for n in ast.walk(node.target) if isinstance(n, ast.Name)}
+        for n in sorted(pre_names):
+            if n not in st.env and not n.startswith("_k") and n != idx:
+                # a name first bound inside the loop: before the first iteration it is unbound (reading it raises
+                # NameError in CPython; implicit exceptions are not checked), later it holds what an earlier iteration
+                # left: an arbitrary value of its declared kind, so that invariants may mention it
+                k_ = self.decl_kinds.get(n, ANY)
+                t_ = fresh("leak_" + n, V)
+                st.env[n] = SV(t_, k_)
+                assume_typed(st, t_, k_)
         for name, src in invs:
             self.oblige("loop%d/inv[%s]/entry" % (ordn, name), st, self.formula(src, st, cxl, inv_env(st), pol=1),
                         line, kind="inv")
@@ -679,6 +692,14 @@ class Exec(EvalMixin, CallMixin):
                 out.append((s, "next"))
         # ---- exit
         se = head.fork()
+        for n in sorted(names):
+            if n not in se.env and not n.startswith("_k"):
+                # a name first bound inside the loop (loop target, local of the body) and read after it: some value the
+                # loop left there (an unbound read raises NameError in CPython; implicit exceptions are not checked)
+                k_ = self.decl_kinds.get(n, ANY)
+                t_ = fresh("leak_" + n, V)
+                se.env[n] = SV(t_, k_)
+                assume_typed(se, t_, k_)
         if desc is not None:
             se.assume(z3.Not(desc["guard"](se)))
         else:
